@@ -686,6 +686,10 @@ func raceReports(id, stderr string) []hc.Violation {
 						site = f
 					} else if strings.HasPrefix(l, "github.com/gdamore/tcell/v2/terminfo.") {
 						site = "terminfo." + strings.TrimSuffix(strings.TrimPrefix(l, "github.com/gdamore/tcell/v2/terminfo."), "()")
+					} else if strings.HasPrefix(l, "main.apiOps.") {
+						// the application's own code touching what an API call handed out (a slice
+						// or map that aliases the screen's internal state)
+						site = "application(result of an API call)"
 					} else if strings.HasPrefix(l, "main.(*stty).Write") {
 						continue // the fake terminal reading the bytes handed to Tty.Write: the caller decides
 					} else if !(strings.HasPrefix(l, "main.") || strings.HasPrefix(l, "verif/") || strings.Contains(l, "/verifrt.") || strings.Contains(l, "/vsync.") || strings.Contains(l, "/vtime.") || strings.HasPrefix(l, "github.com/gdamore/tcell/v2.Verif")) {
